@@ -156,13 +156,25 @@ def agree_with_physical_connectivity(base, var, s_idx0, s_idx1, tol):
     """classification only: recompute both descriptions with the exact-kernel eligibility taken from
     the physical connectivity instead of the program's owner-dependent bookkeeping"""
     zs = []
+    ffs = []
+    A = build.mm.Angle
     for c_ in (base, var):
         m = build.model(c_)
         t = build.ref_topology(c_, m)
         m.pulses._matrix_geo_unconnected = physical_unconnected(t)
         m.compute()
         zs.append([x.impedance for x in m.sources])
-    return all(abs(a - b) <= tol * abs(a) for a, b in zip(*zs))
+        # the far field in a few directions is a functional of all currents
+        ff = []
+        if m.power > 0:
+            for th, ph in ((20.0, 10.0), (60.0, 100.0), (85.0, 200.0), (40.0, 300.0)):
+                m.compute_far_field(A(th, 0, 1), A(ph, 0, 1))
+                ff += [complex(np.ravel(m.far_field.e_theta)[0]), complex(np.ravel(m.far_field.e_phi)[0])]
+        ffs.append(np.array(ff))
+    ok = all(abs(a - b) <= tol * abs(a) for a, b in zip(*zs))
+    if ok and len(ffs[0]) and len(ffs[0]) == len(ffs[1]):
+        ok = np.abs(ffs[0] - ffs[1]).max() <= tol * np.abs(ffs[0]).max()
+    return ok
 
 
 def check(case):
@@ -231,16 +243,23 @@ def check(case):
     fails = []
     I0, I1 = np.array(m0.current), np.array(m1.current)
     imax = np.abs(I0).max()
-    # impedances
-    suffix = ''
-    for a, b in zip(m0.sources, m1.sources):
-        if abs(a.impedance - b.impedance) > tol * abs(a.impedance):
+    # classification of any difference (computed once, on the first failure): known finding F-C06
+    _cls = {}
+
+    def suffix_():
+        if 'v' not in _cls:
+            _cls['v'] = ''
             try:
                 if agree_with_physical_connectivity(base, var, None, None, tol):
-                    suffix = ':exact-kernel-eligibility-depends-on-junction-owner'
+                    _cls['v'] = ':exact-kernel-eligibility-depends-on-junction-owner'
             except Exception:
                 pass
-            fails.append(('impedance' + suffix, 'feed impedance %r in the base description, %r in the variant (cond %.3g)' % (a.impedance, b.impedance, c)))
+        return _cls['v']
+
+    # impedances
+    for a, b in zip(m0.sources, m1.sources):
+        if abs(a.impedance - b.impedance) > tol * abs(a.impedance):
+            fails.append(('impedance' + suffix_(), 'feed impedance %r in the base description, %r in the variant (cond %.3g)' % (a.impedance, b.impedance, c)))
             break
     # currents by position
     worst = 0.0
@@ -261,7 +280,7 @@ def check(case):
         sgn = 1.0 if pulse_dir(p) @ pulse_dir(q) > 0 else -1.0
         worst = max(worst, abs(I0[p.idx] - sgn * I1[q.idx]) / imax)
     if worst > tol:
-        fails.append(('currents' + suffix, 'pulse currents differ by %.3g of the largest current (tol %.2g, cond %.3g)' % (worst, tol, c)))
+        fails.append(('currents' + suffix_(), 'pulse currents differ by %.3g of the largest current (tol %.2g, cond %.3g)' % (worst, tol, c)))
     # wire-end currents at junctions
     e0, e1 = end_table(t0, I0), end_table(tv, I1)
     worst = 0.0
@@ -274,7 +293,7 @@ def check(case):
             break
         worst = max(worst, abs(i - m_[0][2]) / imax)
     if worst > tol:
-        fails.append(('wire-end-currents' + suffix, 'wire-end currents at a junction of >= 3 ends differ by %.3g (tol %.2g)' % (worst, tol)))
+        fails.append(('wire-end-currents' + suffix_(), 'wire-end currents at a junction of >= 3 ends differ by %.3g (tol %.2g)' % (worst, tol)))
     # far field, complex
     if m0.power > 0 and m1.power > 0:
         A = build.mm.Angle
@@ -286,7 +305,7 @@ def check(case):
         f0, f1 = np.array(f0), np.array(f1)
         err = np.abs(f0 - f1).max() / np.abs(f0).max()
         if err > tol:
-            fails.append(('far-field' + suffix, 'far field differs by %.3g of its maximum (tol %.2g)' % (err, tol)))
+            fails.append(('far-field' + suffix_(), 'far field differs by %.3g of its maximum (tol %.2g)' % (err, tol)))
         # near field at 3 points at least 1.5 segment lengths from every conductor
         segs = np.concatenate([o['segs'] for o in t0.objs])
         cen = segs.mean(0)
@@ -310,6 +329,6 @@ def check(case):
             # the program differentiates the potentials numerically over 0.001 wavelength, which amplifies the
             # (allowed) differences of the currents: three times the tolerance of the currents
             if de > 3 * tol or dh > 3 * tol:
-                fails.append(('near-field' + suffix, 'near field at %s differs: E %.3g, H %.3g (tol %.2g)' % ([float(x) for x in p], de, dh, tol)))
+                fails.append(('near-field' + suffix_(), 'near field at %s differs: E %.3g, H %.3g (tol %.2g)' % ([float(x) for x in p], de, dh, tol)))
                 break
     return Result(fails=fails, nontrivial=nt, labels=sorted(set(labels)))
